@@ -107,7 +107,7 @@ func c11Model(c *ctx, pool *c11Pool, cases []c11Case, outs []c11Outcome) {
 		switch o.D {
 		case "ok", "err", "panic":
 		default:
-			if strings.HasPrefix(k.Decoder, "sam.Parse") || k.Decoder == "bam.parseAux" || k.Decoder == "bam.ReadIndex" || strings.HasSuffix(k.Decoder, "/raw") {
+			if strings.HasPrefix(k.Decoder, "sam.Parse") || k.Decoder == "bam.parseAux" || k.Decoder == "bam.ReadIndex" || k.Decoder == "tabix.ReadFrom" || strings.HasSuffix(k.Decoder, "/raw") {
 				res.hist("model:not-compared:" + o.D)
 			}
 			continue
@@ -165,6 +165,13 @@ func c11Model(c *ctx, pool *c11Pool, cases []c11Case, outs []c11Outcome) {
 			d.add("c11.bai %s", hexs(k.bytes()))
 			impl = append(impl, c11ImplLine(o, o.Canon))
 			res.hist("model:bam.ReadIndex:" + o.D)
+		case "tabix.ReadFrom":
+			if len(k.Hex) > 8000 {
+				continue
+			}
+			d.add("c11.tbi %s", hexs(k.bytes()))
+			impl = append(impl, c11ImplLine(o, o.Canon))
+			res.hist("model:tabix.ReadFrom:" + o.D)
 		case "sam.Aux/raw":
 			d.add("c11.auxsweep %s", hexs(k.bytes()))
 			line := "ok"
